@@ -883,7 +883,7 @@ impl<'a> DijkstraPred<'a> {
             }
             seen = seen.insert(x as int);
         }
-    @before #2 `if distance`
+    @before `if distance`
         proof {
             assert forall|y: int| dg.has(um, y) implies seen.contains(y) by {
                 if um == v as int { assert(dg.has(v as int, y)); }
